@@ -91,7 +91,7 @@ def run(ctx):
     for f in data['fails']:
         ctx.report(f['key'], 'Node.position: ' + f['msg'],
                    dict({'key': f['key'], 'msg': f['msg'], 'spec': f['spec'], 'shape': f['shape'], 'terms': f['terms']},
-                        **({'edit': f['edit']} if 'edit' in f else {})))
+                        **{k: f[k] for k in ('edit', 'history') if k in f}))
     ctx.oblige('property oracle: every sub-tree of %d trees x terminal sets (%d function-node evaluations) equals the documented operator '
                'on its children\'s values, has the declared shape, and the tree is unmodified' % (data['cases'], data['nodes']),
                not data['fails'], '; '.join(f['msg'] for f in data['fails'][:3]))
@@ -101,7 +101,8 @@ def run(ctx):
                        '(signs, +-0, denormals, 1e+-300, 1.7e308, +-1e-10 so that y+eps cancels, pi multiples, exp overflow/underflow) and '
                        '"mixed" (adds inf/nan/random magnitudes) over shapes (1,1),(2,3),(3,1),(1,4),(4,2); non-trivial = the tree has a function node; '
                        'evaluate->edit->evaluate scenarios (every node read, then a sub-tree at depth >= 2 replaced through the setters, or a terminal array '
-                       'rewritten in place, on the tree or on a deepcopy; per-node oracle on the edited tree, the other tree keeps its value); '
+                       'rewritten in place, or a terminal re-typed to FUNCTION and given children, on the tree or on a deepcopy; per-node oracle on the edited tree, the other tree keeps its value); evaluation histories (same numbers as (b,a) arrays after (a,b) arrays; '
+                       'the caller overwrites the returned array in place and evaluates again); '
                        'Coq sample: 7 (quick) / 150 (thorough) node evaluations per operator, finite and well-conditioned' % data['exhaustive_trees'])
     nontriv = sum(v for k, v in data['dist'].items() if not k.endswith('-d0/special') and '-d0/' not in k)
     ctx.count(data['cases'] + data.get('edit_cases', 0), nontriv + data.get('edit_cases', 0))
